@@ -373,7 +373,10 @@ fn run_fit<const V: usize>(p: &FitPt, xs: &[f64], ys: &[f64], start: &[f64], ana
         }
         model(p.model, x, q.as_slice())
     };
-    let params = CurveFitParams::<f64> { damping: p.damping, tolerance: p.tol, h: p.h, damping_mult: p.mult };
+    let base = CurveFitParams::<f64> { damping: p.damping, tolerance: p.tol, h: p.h, damping_mult: p.mult };
+    // the analytic variant is given a CLONE of the parameter set (a caller who keeps one set and clones it per fit must get
+    // the same fit; with the variants required to agree, a clone that is not a copy shows as a disagreement)
+    let params = if analytic { base.clone() } else { base };
     let res = vcore::guard(|| {
         if analytic {
             curve_fit_jac::<f64, _, _, V>(f, xs, ys, start, |x: f64, q: &SVector<f64, V>| SVector::<f64, V>::from_column_slice(&grad(p.model, x, q.as_slice())), &params)
